@@ -23,6 +23,10 @@ type RunCtx struct {
 	Notes  []string
 	Extra  map[string]interface{} // extra coverage keys
 	Direct []DirectViolation      // violations found by direct (non-Coq) property oracles
+	// direct (non-Coq) exploration done by the generator itself
+	ExploreEvals, ExploreDistinct int
+	ExploreSamples                []interface{}
+	ExploreHist                   map[string]int
 }
 
 // N picks the case count for the tier
@@ -172,7 +176,7 @@ func main() {
 		defer lock.Close()
 	}
 
-	ctx := &RunCtx{Prop: id, Tier: tier, Seed: seed, R: NewRand(uint64(seed) ^ hashStr(id)), Thor: tier == "thorough", Extra: map[string]interface{}{}}
+	ctx := &RunCtx{Prop: id, Tier: tier, Seed: seed, R: NewRand(uint64(seed) ^ hashStr(id)), Thor: tier == "thorough", Extra: map[string]interface{}{}, ExploreHist: map[string]int{}}
 
 	// 1. regenerate the tables from /repo and rebuild the Coq development
 	brokenWhy := ""
@@ -258,6 +262,13 @@ func main() {
 				samples = append(samples, map[string]interface{}{"correspondence": b.Name, "case": c.Sample})
 			}
 		}
+	}
+
+	evals += ctx.ExploreEvals
+	distinct += ctx.ExploreDistinct
+	samples = append(samples, ctx.ExploreSamples...)
+	for k, v := range ctx.ExploreHist {
+		hist[k] += v
 	}
 
 	// 3. verdict
